@@ -130,3 +130,18 @@ Definition attr_errors (sw : bool) (e : env) (defs : list attdef) (doc : adoc) :
    [validate] is the parser's validation switch: it decides about errors only *)
 Definition delivered (validate : bool) (defs : list attdef) (el : elem) : list (nat * value) :=
   el ++ flat_map (fun x => match x with (Some d, v) => [(ad_name d, v)] | _ => [] end) (defaulted defs el).
+
+(** ---- several element types: the same start-tag code runs for every element with the attribute definitions
+    of its own declaration; the ID table is the scanner's, shared by the whole document *)
+Fixpoint scan_tdoc (sw : bool) (e : env) (dm : nat -> list attdef) (doc : tdoc) (tbl : idtbl)
+  : list verr * idtbl :=
+  match doc with
+  | [] => ([], tbl)
+  | x :: r =>
+      let '(e1, t1) := scan_attrs sw e (dm (fst x)) (snd x) tbl in
+      let '(e2, t2) := scan_tdoc sw e dm r t1 in
+      (e1 ++ e2, t2)
+  end.
+
+Definition attr_errors_t (sw : bool) (e : env) (dm : nat -> list attdef) (doc : tdoc) : list verr :=
+  let '(e1, tbl) := scan_tdoc sw e dm doc (mkTbl [] []) in e1 ++ check_idrefs tbl.
